@@ -446,6 +446,19 @@ func sendCommands(e *Env) {
 			}
 		})
 	}
+	// inbound traffic meanwhile: the client's automatic PONGs share the queue
+	autoPong := map[string]bool{}
+	stopPings := false
+	if g.Pct(40) {
+		e.S.Spawn("server-pinger", func() {
+			for k := 0; k < 300 && !stopPings; k++ {
+				tok := fmt.Sprintf("srvtok%dz", k)
+				autoPong["PONG :"+tok] = true
+				s.l.SendLine("PING :" + tok)
+				simrt.Sleep(time.Duration(1+e.S.Choose(400)) * time.Millisecond)
+			}
+		})
+	}
 	ncalls := g.Range(1, 25)
 	pos := 0
 	for k := 0; k < ncalls && !e.S.Failed(); k++ {
@@ -491,7 +504,7 @@ func sendCommands(e *Env) {
 		var mine []string
 		for ; pos < len(s.lines); pos++ {
 			ln := s.lines[pos]
-			if strings.HasPrefix(ln, "NOISE ") {
+			if strings.HasPrefix(ln, "NOISE ") || autoPong[ln] {
 				continue
 			}
 			mine = append(mine, ln)
@@ -506,6 +519,7 @@ func sendCommands(e *Env) {
 		}
 	}
 	stopNoise = true
+	stopPings = true
 	simrt.Settle(5 * time.Second)
 	if !c11 && !e.S.Failed() {
 		checkStream(e, s, noiseSent)
